@@ -138,6 +138,18 @@ func (n *Names) Pub(name string) types.Pubkey {
 	return p
 }
 
+// PubNames lists every candidate key name used so far (sorted).
+func (n *Names) PubNames() []string {
+	n.mu.Lock()
+	defer n.mu.Unlock()
+	out := make([]string, 0, len(n.pub))
+	for k := range n.pub {
+		out = append(out, k)
+	}
+	sort.Strings(out)
+	return out
+}
+
 func (n *Names) PubName(p types.Pubkey) string {
 	n.mu.Lock()
 	defer n.mu.Unlock()
